@@ -46,6 +46,8 @@ cases.append(dict(bytes=[131, 104, 1, 97, 1, 97, 2], expect_error=True))
 # COMPRESSED (the replay crate deflates `inner`): exactly one term inside
 cases.append(dict(gen='compressed', inner=[104, 2, 97, 1, 97, 2], expect={'tuple': [{'int': 1}, {'int': 2}]}))
 cases.append(dict(gen='compressed', inner=[97, 1, 97, 2], expect_error=True))
+cases.append(dict(gen='compressed', inner=[97, 7], after=[0], expect_error=True))                       # bytes after a compressed term
+cases.append(dict(gen='compressed', inner=[97, 7], wrap_tuple2_then=[97, 9], expect={'tuple': [{'int': 7}, {'int': 9}]}))   # a compressed element followed by another
 
 p = json.load(open('/verif/props.json'))
 p['C03']['witness_search'] = [{'scenario': 'decode_value', 'input': c} for c in cases]
